@@ -97,6 +97,10 @@ Worlds ==
          { [cfg |-> [C0 EXCEPT !.modules = m, !.lockAfter = 1],
             seed |-> << [S0("u1", 1, TRUE) EXCEPT !.otps = 2], [S0("u2", 2, TRUE) EXCEPT !.otps = 4] >>] :
              m \in { <<"auth", "otp", "logout">>, <<"auth", "otp", "lock", "logout">> } }
+    [] Family = "indep" ->       \* two clients on disjoint accounts / browsers (C20)
+         { [cfg |-> [C0 EXCEPT !.modules = m, !.recoverLogin = TRUE],
+            seed |-> << [S0("u1", 1, TRUE) EXCEPT !.otps = 1], [S0("u2", 2, TRUE) EXCEPT !.otps = 1] >>] :
+             m \in { <<"auth", "lock", "recover", "otp", "logout">>, <<"auth", "remember", "recover", "otp", "logout">> } }
     [] Family = "oauth" ->
          { [cfg |-> [C0 EXCEPT !.modules = m, !.errWrites = ew], seed |-> <<S0("u1", 1, TRUE)>>] :
              m \in { <<"auth", "oauth2", "logout">>, <<"auth", "oauth2", "lock", "remember", "logout">> },
@@ -201,6 +205,8 @@ Events(S, c) ==
          \cup { Ev(a, "b1") : a \in {"OtpAdd", "OtpClear", "Probe"} }
          \cup { [Ev("LoginPost", "b1") EXCEPT !.pid = "u2", !.pw = 2] }
          \cup Ticks({3})
+    [] Family = "indep" ->
+         ClientEvents(S, c, "b1", "u1") \cup ClientEvents(S, c, "b2", "u2") \cup Ticks({1})
     [] Family = "oauth" ->
          { [Ev("OAuthStart", b) EXCEPT !.prov = p, !.rm = r] : b \in Browsers, p \in {"pa", "pb"}, r \in BOOLEAN }
          \cup { [Ev("OAuthCallback", b) EXCEPT !.prov = p, !.tok = t, !.outcome = o] :
@@ -245,5 +251,8 @@ NoViolation == viol = {}
 \* C16 at the design level: in every reachable state the paired requests are
 \* indistinguishable to the client
 NoInterference == NIViolations(st, cfg) = {}
+
+\* C20 at the design level: disjoint clients' requests are independent
+Independence == IndependenceViolations(st, cfg) = {}
 
 =============================================================================
